@@ -177,7 +177,7 @@ FNS = [
        rules=[MUTBUF,
               Rule("R6-slot-index", r"let slot_value = unsafe \{ mutable_buffer\.get_unchecked_mut\(([^()]*)\) \};", r"let slot_value = Self::slot_at(\1);", count=1, note="slot reference -> index (bound obligation)"),
               Rule("R8-break-value", r"break Some\( \(([^()]*)\) \)", r"return Some( (\1) );", count=1)],
-       hints=[(r"len_before = tail\.overflowing_sub\(slot_id\)\.0 as i32;", "proof { let d: u32 = tail.wrapping_sub(slot_id); assert(d >= 0x8000_0000u32 ==> (d as i32) < 0i32) by(bit_vector); assert(d < 0x8000_0000u32 ==> (d as i32) >= 0i32 && (d as i32) as u32 == d) by(bit_vector); }")],
+       hints=[(r"let tail = self\.tail\.load\(Relaxed\);", "proof { let d: u32 = tail.wrapping_sub(slot_id); assert(d >= 0x8000_0000u32 ==> (d as i32) < 0i32) by(bit_vector); assert(d < 0x8000_0000u32 ==> (d as i32) >= 0i32 && (d as i32) as u32 == d) by(bit_vector); }")],
        requires="old(self).inv(), forall|r: bool| report_empty_fn.ensures((), r) ==> !r, report_empty_fn.requires(())",
        ensures="final(self).same_but_dequeuer_head(old(self)),"
                "old(self).len() - old(self).taken() > 0 ==> (r matches Some((idx, id, len_before)) && id == old(self).dequeuer_head@ && idx == id as usize % BUFFER_SIZE"
